@@ -209,11 +209,38 @@ class C13(Prop):
     def setup(self, ctx):
         import_repo()
         import operon_ai.organelles.lysosome as L
-        self.L = L
+        import operon_ai.healing.autophagy_daemon as AD
+        self.L, self.AD = L, AD
         self.clock = util.FakeClock()
-        L.datetime = self.clock.datetime_class()
-        self.records = []
         prop = self
+        import datetime as _dt
+
+        class FakeDT(_dt.datetime):
+            """the harness clock for every module that feeds the lysosome; unlike util.FakeClock's class it honours
+            the `tz` argument: `now(timezone.utc)` is timezone-AWARE, as the real one is (the harness clock reads
+            UTC), so that a caller who stamps waste with such a value is seen doing it"""
+            @classmethod
+            def now(cls, tz=None):
+                t = prop.clock.now()
+                return t if tz is None else t.replace(tzinfo=_dt.timezone.utc).astimezone(tz)
+
+            @classmethod
+            def utcnow(cls):
+                return prop.clock.now()
+        L.datetime = FakeDT
+        AD.datetime = FakeDT
+        # Waste.created_at's default factory captured the real datetime.now when the class was built: give the
+        # DEFAULT (and only the default - an explicit created_at, whoever passes it, is left alone) the fake clock
+        if not getattr(L.Waste.__init__, "_vf_clock", False):
+            real_init = L.Waste.__init__
+
+            def __init__(w, *a, **k):
+                if len(a) < 4 and "created_at" not in k:
+                    k["created_at"] = prop.clock.now()
+                real_init(w, *a, **k)
+            __init__._vf_clock = True
+            L.Waste.__init__ = __init__
+        self.records = []
 
         class H(logging.Handler):
             def emit(self, record):
@@ -495,17 +522,16 @@ class C13(Prop):
         lys = L.Lysosome(max_queue_size=mq, auto_digest_threshold=at, retention_hours=ret / 3_600_000_000,
                          digesters=digesters or None, on_toxic=on_toxic if ontox == "set" else None, silent=True)
         orig = lys.ingest
-        clock = self.clock
 
-        def ingest_at_fake_time(waste):      # Waste.created_at's default factory captured the real datetime.now
-            if not hasattr(waste, "vf"):
-                waste.created_at = clock.now()
-                if ctx.get("daemon_vf") is not None:      # the waste the AutophagyDaemon builds in check_and_prune
-                    waste.vf = ctx["daemon_vf"]
-                    ctx["daemon_vf"] = None
-                    ctx["seq"] += 1
+        def ingest_tagging(waste):
+            # the waste the AutophagyDaemon builds in check_and_prune gets the harness's tag; NOTHING else about it is
+            # touched (its created_at, priority, ... are what the library's own caller made them)
+            if not hasattr(waste, "vf") and ctx.get("daemon_vf") is not None:
+                waste.vf = ctx["daemon_vf"]
+                ctx["daemon_vf"] = None
+                ctx["seq"] += 1
             return orig(waste)
-        lys.ingest = ingest_at_fake_time
+        lys.ingest = ingest_tagging
         ctx["reentrant"] = "RLock" in type(lys._lock).__name__
         ctx["lockev"] = []
         lys._lock = TraceLock(lys._lock, ctx["lockev"])
@@ -642,6 +668,17 @@ class C13(Prop):
             return c["context"]["id"]
         return c.get("id") if isinstance(c, dict) else None
 
+    def _stamp_of(self, w):
+        """created_at of a queued item as the caller / the library's own caller left it: µs on the harness clock, or
+        `aware` for a timezone-aware value"""
+        import datetime as _dt
+        c = getattr(w, "created_at", None)
+        if not isinstance(c, _dt.datetime):
+            return "not-a-datetime"
+        if c.tzinfo is not None:
+            return "aware"
+        return str((c - self.clock.t0) // _dt.timedelta(microseconds=1))
+
     def _dump(self, ctx):
         lys = ctx["lys"]
         st = lys.get_statistics()
@@ -651,6 +688,7 @@ class C13(Prop):
         em = sum(1 for r in self.records if r == "_emergency_digest")
         other = 0     # warnings of other functions (a failing cleanup() in _digest_orphaned) are not accounting
         s = " ".join(["q=[" + ",".join(str(self._id_of(w)) for w in q) + "]",
+                      "at=[" + ",".join(self._stamp_of(w) for w in q) + "]",
                       f"ing={st['total_ingested']}", f"dig={st['total_digested']}", f"rec={st['total_recycled']}",
                       "by=[" + ",".join(map(str, by)) + "]", "bin=" + self._show_bin(lys.get_recycled()),
                       "tox=[" + ",".join(map(str, ctx["toxlog"])) + "]",
